@@ -5,7 +5,7 @@ from . import lex, mon
 
 SPEC = {
     'rule': ('histories of 5-60 add_rule / delete_rule / add_dynamic_type / add_dynamic_type_item calls interleaved with evaluations, over a pool '
-             'of 13 rule specs (named NUMBER / TEXT / MONEY / PERCENT fields encoded into the returned number, two specs sharing a pattern, two '
+             'of 14 rule specs (named NUMBER / TEXT / MONEY / PERCENT fields encoded into the returned number, two specs sharing a pattern, two '
              'sharing a name, one declining, one for tr, one for an unknown language, one returning money, a word-group field and a Turkish operator word in patterns registered for tr) and 3 unit families (chains of 2-5 '
              'items with integer factors, duplicate family names and indices, an item for a missing family). Oracle: a model calculator '
              '(ordered surviving rules per language, families); return values and matching lines are judged against the model during the '
@@ -33,6 +33,7 @@ RULES = {
     # 'hour'/'hours' in en) and a word that is an operator alias in tr only ('kere' = '*')
     'K': {'lang': 'tr', 'patterns': ['{GROUP:label:hour_group} {NUMBER:n}'], 'spec': {'name': 'r11', 'kind': 'encode', 'weights': {'n': 60}}},
     'L': {'lang': 'tr', 'patterns': ['{NUMBER:n} kere'], 'spec': {'name': 'r12', 'kind': 'encode', 'weights': {'n': 7}}},
+    'N': {'lang': 'en', 'patterns': ['dozen'], 'spec': {'name': 'r13', 'kind': 'const', 'value': 12}},      # a one-word pattern (shorter than every built-in pattern)
     'M': {'lang': 'en', 'patterns': ['{GROUP:label:hour_group} {NUMBER:n}'], 'spec': {'name': 'r11', 'kind': 'encode', 'weights': {'n': 61}}},
 }
 
@@ -60,12 +61,13 @@ def probes():
     out.append(('tr', '5 kere', '{NUMBER:n} kere', {'n': 5}))
     out.append(('en', 'hours 5', '{GROUP:label:hour_group} {NUMBER:n}', {'n': 5}))
     out.append(('en', 'hour 9', '{GROUP:label:hour_group} {NUMBER:n}', {'n': 9}))
+    out.append(('en', 'dozen', 'dozen', {}))
     return out
 
 
 NEAR_MISSES = [('en', 'zork 3'), ('en', 'zork x y'), ('en', 'glorp 5'), ('en', 'blip'), ('en', '5 qoins'), ('en', 'frob 10% 5'), ('tr', '6 zork'), ('en', 'zork'),
                ('en', 'zork 3 4 + 1'), ('en', '2 * blip 8'),
-               ('en', 'saat 5'), ('tr', 'hours 5'), ('en', '5 kere'), ('tr', '5 saat')]
+               ('en', 'saat 5'), ('tr', 'hours 5'), ('en', '5 kere'), ('tr', '5 saat'), ('en', 'dozen * 2'), ('en', '3 dozen'), ('tr', 'dozen')]
 
 
 class Model:
@@ -197,7 +199,7 @@ def run_shard(ctx):
                 hist.append('add_rule %s' % rid)
             elif r < 0.45:
                 lang = rng.choice(['en', 'en', 'tr', 'xx'])
-                name = rng.choice(['r1', 'r2', 'r3', 'r5', 'r6', 'r8', 'r9', 'r10', 'r11', 'r12', 'nope'])
+                name = rng.choice(['r1', 'r2', 'r3', 'r5', 'r6', 'r8', 'r9', 'r10', 'r11', 'r12', 'r13', 'nope'])
                 want = model.delete_rule(lang, name)
                 ops.append({'op': 'delete_rule', 'lang': lang, 'name': name})
                 meta[len(ops) - 1] = ('ret', 'delete_rule(%s, %s)' % (lang, name), want)
